@@ -17,6 +17,7 @@ pub mod family;
 pub mod h_board;
 pub mod h_c13;
 pub mod h_check;
+pub mod h_cmd;
 pub mod h_engine;
 pub mod h_tables;
 pub mod h_uci;
